@@ -448,6 +448,14 @@ theorem removeShareFromOperator_spec {s s' : L} {isU : Bool} {o : OID} {st : SID
             refine ⟨?_, updPool_recs h1⟩
             rw [value_updPool a h1]; split <;> omega
 
+theorem pendStaker_spec {s s' : L} {isU : Bool} {st : SID} {a0 : AID} {removed : Int} (a : AID)
+    (h : pendStaker s isU st a0 removed = .ok s') : value s' a = value s a ∧ SameRecs s s' := by
+  unfold pendStaker at h
+  split at h
+  · refine ⟨?_, updStaker_recs h⟩
+    rw [value_updStaker a h]; split <;> omega
+  · injection h with h; subst h; exact ⟨rfl, rfl, rfl, rfl, rfl, rfl, rfl⟩
+
 theorem removeShare_spec {s s' : L} {isU : Bool} {o : OID} {st : SID} {a0 : AID} {share : Dec}
     {removed : Int} (a : AID) (h : removeShare s isU o st a0 share = .ok (s', removed)) :
     value s' a = value s a - (if a0 = a then removed else 0) ∧ SameRecs s s' := by
@@ -476,13 +484,7 @@ theorem removeShare_spec {s s' : L} {isU : Bool} {o : OID} {st : SID} {a0 : AID}
             injection h with ha hb
             subst ha; subst hb
             -- s2: optional staker pending update
-            have v2 : value s2 a = value s1 a ∧ SameRecs s1 s2 := by
-              cases isU
-              · simp only [Bool.false_eq_true, if_false] at h2
-                injection h2 with h2; subst h2; exact ⟨rfl, rfl, rfl, rfl, rfl, rfl, rfl⟩
-              · simp only [if_true] at h2
-                refine ⟨?_, updStaker_recs h2⟩
-                rw [value_updStaker a h2]; split <;> omega
+            have v2 : value s2 a = value s1 a ∧ SameRecs s1 s2 := pendStaker_spec a h2
             have v3 := value_updDeleg a h3
             have r3 := updDeleg_recs h3
             have v4 : value s4 a = value s3 a ∧ SameRecs s3 s4 := by
@@ -552,14 +554,43 @@ open ExoVerif ExoVerif.KV
 
 def Live (s : L) (r : URec) : Prop := find? s.recs r.key = some r
 
+/-- EndBlock's staker credit: what it does to value, record stores and the escrow -/
+theorem creditStaker_spec {s s' : L} {r : URec} (a : AID) (h : creditStaker s r = .ok s') :
+    SameRecs s s' ∧
+    value s' a = value s a + (if r.asset = nativeAID then 0 else if r.asset = a then r.actual else 0) ∧
+    (r.asset = nativeAID → s'.escrow = s.escrow - r.actual ∧ r.actual ≤ s.escrow ∧ s'.stakers = s.stakers) ∧
+    (r.asset ≠ nativeAID → s'.escrow = s.escrow ∧
+      (getD s'.stakers (r.staker, r.asset) zeroStaker).withdrawable
+        = (getD s.stakers (r.staker, r.asset) zeroStaker).withdrawable + r.actual ∧
+      (getD s'.stakers (r.staker, r.asset) zeroStaker).pending
+        = (getD s.stakers (r.staker, r.asset) zeroStaker).pending - r.amount) := by
+  unfold creditStaker at h
+  by_cases hn : r.asset = nativeAID
+  · simp only [hn, if_true] at h
+    split at h
+    · cases h
+    · rename_i hlt
+      injection h with h; subst h
+      refine ⟨⟨rfl, rfl, rfl, rfl, rfl, rfl⟩, by simp [hn, value], fun _ => ⟨rfl, by omega, rfl⟩, fun h' => absurd hn h'⟩
+  · simp only [hn, if_false] at h
+    refine ⟨updStaker_recs h, ?_, fun h' => absurd h' hn, fun _ => ?_⟩
+    · rw [value_updStaker a h]; simp [hn]
+    · rw [updStaker_ok h]
+      refine ⟨rfl, ?_, ?_⟩
+      · simp only [getD_set_same]
+      · simp only [getD_set_same]; omega
+
 theorem completeRecord_spec {s s' : L} {r : URec} (hi : RecInv s) (hr : Live s r)
     (h : completeRecord s r = .ok s') :
-    (∀ a, value s' a = value s a) ∧ RecInv s' ∧ find? s'.recs r.key = none ∧
+    (∀ a, value s' a = value s a - (if r.asset = nativeAID ∧ r.asset = a then r.actual else 0)) ∧
+    RecInv s' ∧ find? s'.recs r.key = none ∧
     (∀ k, k ≠ r.key → find? s'.recs k = find? s.recs k) ∧ s'.holds = s.holds ∧ s'.height = s.height ∧
-    (getD s'.stakers (r.staker, r.asset) zeroStaker).withdrawable
-      = (getD s.stakers (r.staker, r.asset) zeroStaker).withdrawable + r.actual ∧
-    (getD s'.stakers (r.staker, r.asset) zeroStaker).pending
-      = (getD s.stakers (r.staker, r.asset) zeroStaker).pending - r.amount := by
+    (r.asset = nativeAID → s'.escrow = s.escrow - r.actual ∧ r.actual ≤ s.escrow) ∧
+    (r.asset ≠ nativeAID → s'.escrow = s.escrow ∧
+      (getD s'.stakers (r.staker, r.asset) zeroStaker).withdrawable
+        = (getD s.stakers (r.staker, r.asset) zeroStaker).withdrawable + r.actual ∧
+      (getD s'.stakers (r.staker, r.asset) zeroStaker).pending
+        = (getD s.stakers (r.staker, r.asset) zeroStaker).pending - r.amount) := by
   unfold completeRecord at h
   simp only [bind, Except.bind, pure, Except.pure] at h
   split at h
@@ -575,16 +606,30 @@ theorem completeRecord_spec {s s' : L} {r : URec} (hi : RecInv s) (hr : Live s r
       · rename_i s3 h3
         injection h with h; subst h
         obtain ⟨a1, a2, a3, a4, a5, a6⟩ := updDeleg_recs h1
-        obtain ⟨b1, b2, b3, b4, b5, b6⟩ := updStaker_recs h2
+        obtain ⟨⟨b1, b2, b3, b4, b5, b6⟩, _, cn, cl⟩ := creditStaker_spec r.asset h2
         obtain ⟨c1, c2, c3, c4, c5, c6⟩ := updPool_recs h3
         have e1 : s3.recs = s.recs := c1.trans (b1.trans a1)
         have e2 : s3.sidx = s.sidx := c2.trans (b2.trans a2)
         have e3 : s3.pidx = s.pidx := c3.trans (b3.trans a3)
         have hi3 : RecInv s3 := recInv_congr hi e1 e2 e3
         have hr3 : find? s3.recs r.key = some r := by rw [e1]; exact hr
+        obtain ⟨_, _, _, _, hs3⟩ := updPool_ok h3
+        obtain ⟨_, _, _, hs1⟩ := updDeleg_ok h1
+        have hst3 : s3.stakers = s2.stakers := by rw [hs3]
+        have hst1 : s1.stakers = s.stakers := by rw [hs1]
+        have hes3 : s3.escrow = s2.escrow := by rw [hs3]
+        have hes1 : s1.escrow = s.escrow := by rw [hs1]
         refine ⟨fun a => ?_, recInv_deleteRecord hi3 hr3, ?_, ?_, ?_, ?_, ?_, ?_⟩
-        · rw [value_deleteRecord a hr3, value_updPool a h3, value_updStaker a h2, value_updDeleg a h1]
-          split <;> omega
+        · rw [value_deleteRecord a hr3, value_updPool a h3, (creditStaker_spec a h2).2.1, value_updDeleg a h1]
+          by_cases ha : r.asset = a
+          · subst ha
+            by_cases hn : r.asset = nativeAID
+            · simp only [hn, if_true, and_self]; omega
+            · simp only [hn, if_true, if_false, false_and]; omega
+          · simp only [ha, if_false, and_false]
+            by_cases hn : r.asset = nativeAID
+            · simp only [hn, if_true]; omega
+            · simp only [hn, if_false]; omega
         · show find? (erase s3.recs r.key) r.key = none
           exact find?_erase_same _ _ hi3.ndR
         · intro k hk
@@ -594,22 +639,14 @@ theorem completeRecord_spec {s s' : L} {r : URec} (hi : RecInv s) (hr : Live s r
           exact c4.trans (b4.trans a4)
         · show s3.height = s.height
           exact c5.trans (b5.trans a5)
-        · -- staker row after: s2 wrote it, s3/delete leave stakers alone
-          obtain ⟨_, _, _, _, hs3⟩ := updPool_ok h3
-          obtain ⟨_, _, _, hs1⟩ := updDeleg_ok h1
-          have hst3 : s3.stakers = s2.stakers := by rw [hs3]
-          have hst1 : s1.stakers = s.stakers := by rw [hs1]
-          show (getD s3.stakers _ zeroStaker).withdrawable = _
-          rw [hst3, updStaker_ok h2]
-          simp only [getD_set_same, hst1]
-        · obtain ⟨_, _, _, _, hs3⟩ := updPool_ok h3
-          obtain ⟨_, _, _, hs1⟩ := updDeleg_ok h1
-          have hst3 : s3.stakers = s2.stakers := by rw [hs3]
-          have hst1 : s1.stakers = s.stakers := by rw [hs1]
-          show (getD s3.stakers _ zeroStaker).pending = _
-          rw [hst3, updStaker_ok h2]
-          simp only [getD_set_same, hst1]
-          omega
+        · intro hn
+          obtain ⟨x1, x2, _⟩ := cn hn
+          show s3.escrow = _ ∧ _
+          rw [hes3, x1, hes1]; exact ⟨rfl, by rw [← hes1]; exact x2⟩
+        · intro hn
+          obtain ⟨x1, x2, x3⟩ := cl hn
+          show s3.escrow = _ ∧ (getD s3.stakers _ zeroStaker).withdrawable = _ ∧ (getD s3.stakers _ zeroStaker).pending = _
+          rw [hes3, hst3, x1, x2, x3, hes1, hst1]; exact ⟨rfl, rfl, rfl⟩
 
 end ExoVerif.Ledger
 
@@ -618,7 +655,9 @@ open ExoVerif ExoVerif.KV
 
 /-- what one iteration of the EndBlock loop does to a live record and to everything else -/
 theorem endBlockRecord_spec {s : L} {r : URec} (hi : RecInv s) (hr : Live s r) :
-    (∀ a, value (endBlockRecord s r) a = value s a) ∧ RecInv (endBlockRecord s r) ∧
+    ((∀ a, a ≠ nativeAID → value (endBlockRecord s r) a = value s a) ∧
+     (endBlockRecord s r).escrow - value (endBlockRecord s r) nativeAID = s.escrow - value s nativeAID) ∧
+    RecInv (endBlockRecord s r) ∧
     (∀ k, k ≠ r.key → find? (endBlockRecord s r).recs k = find? s.recs k) ∧
     (endBlockRecord s r).holds = s.holds ∧ (endBlockRecord s r).height = s.height ∧
     (0 < getD s.holds r.key 0 →
@@ -663,10 +702,13 @@ theorem endBlockRecord_spec {s : L} {r : URec} (hi : RecInv s) (hr : Live s r) :
         split at hset
         · cases hset
         · injection hset with hset; exact hset.symm
-      refine ⟨fun a => ?_, recInv_setRecord hi1 hfn hset, fun k hk => ?_, ?_, ?_, fun _ => ?_, fun h0 => by omega, fun h0 => by omega⟩
-      · rw [value_setRecord a hfresh hset, value_deleteRecord a hr]
+      have hval : ∀ a, value s2 a = value s a := by
+        intro a
+        rw [value_setRecord a hfresh hset, value_deleteRecord a hr]
         show _ - _ + (if r.asset = a then r.actual else 0) = _
         omega
+      have hesc : s2.escrow = s.escrow := by rw [hs2]; rfl
+      refine ⟨⟨fun a _ => hval a, by rw [hval, hesc]⟩, recInv_setRecord hi1 hfn hset, fun k hk => ?_, ?_, ?_, fun _ => ?_, fun h0 => by omega, fun h0 => by omega⟩
       · rw [hs2]
         show find? (KV.set (erase s.recs r.key) r.key _) k = _
         rw [find?_set_other _ _ _ _ hk, find?_erase_other _ _ _ hk]
@@ -686,8 +728,24 @@ theorem endBlockRecord_spec {s : L} {r : URec} (hi : RecInv s) (hr : Live s r) :
       · intro _ _ _; trivial
     | ok s2 =>
       simp only []
-      obtain ⟨v, i2, _, oth, hl, hg, _, _⟩ := completeRecord_spec hi hr hc
-      refine ⟨v, i2, oth, hl, hg, ?_, ?_, ?_⟩
+      obtain ⟨v, i2, _, oth, hl, hg, cn, cl⟩ := completeRecord_spec hi hr hc
+      have hv : (∀ a, a ≠ nativeAID → value s2 a = value s a) ∧
+          s2.escrow - value s2 nativeAID = s.escrow - value s nativeAID := by
+        refine ⟨fun a ha => ?_, ?_⟩
+        · rw [v a]
+          by_cases hn : r.asset = nativeAID
+          · have : ¬ (r.asset = nativeAID ∧ r.asset = a) := fun h => ha (h.2 ▸ hn)
+            simp [this]
+          · have : ¬ (r.asset = nativeAID ∧ r.asset = a) := fun h => hn h.1
+            simp [this]
+        · rw [v nativeAID]
+          by_cases hn : r.asset = nativeAID
+          · obtain ⟨e1, _⟩ := cn hn
+            simp only [hn, and_self, if_true, e1]; omega
+          · obtain ⟨e1, _⟩ := cl hn
+            have : ¬ (r.asset = nativeAID ∧ r.asset = nativeAID) := fun h => hn h.1
+            simp only [this, if_false, e1]; omega
+      refine ⟨hv, i2, oth, hl, hg, ?_, ?_, ?_⟩
       · intro h; exact h.elim
       · intro _ s' hs'; injection hs'
       · intro _ e he; cases he
@@ -699,13 +757,15 @@ open ExoVerif ExoVerif.KV
 
 theorem foldl_endBlockRecord_spec (rs : List URec) (s : L) (hi : RecInv s)
     (hl : ∀ r ∈ rs, Live s r) (hd : rs.Pairwise (fun r1 r2 => r1.key ≠ r2.key)) :
-    (∀ a, value (rs.foldl endBlockRecord s) a = value s a) ∧ RecInv (rs.foldl endBlockRecord s) ∧
+    ((∀ a, a ≠ nativeAID → value (rs.foldl endBlockRecord s) a = value s a) ∧
+     (rs.foldl endBlockRecord s).escrow - value (rs.foldl endBlockRecord s) nativeAID
+       = s.escrow - value s nativeAID) ∧ RecInv (rs.foldl endBlockRecord s) ∧
     (∀ k, (∀ r ∈ rs, r.key ≠ k) → find? (rs.foldl endBlockRecord s).recs k = find? s.recs k) ∧
     (rs.foldl endBlockRecord s).holds = s.holds ∧ (rs.foldl endBlockRecord s).height = s.height ∧
     (∀ r ∈ rs, 0 < getD s.holds r.key 0 →
         find? (rs.foldl endBlockRecord s).recs r.key = some { r with completeBlock := s.height + 1 }) := by
   induction rs generalizing s with
-  | nil => exact ⟨fun _ => rfl, hi, fun _ _ => rfl, rfl, rfl, fun r hr => by cases hr⟩
+  | nil => exact ⟨⟨fun _ _ => rfl, rfl⟩, hi, fun _ _ => rfl, rfl, rfl, fun r hr => by cases hr⟩
   | cons r0 rest ih =>
     simp only [List.foldl_cons]
     have hr0 : Live s r0 := hl r0 (by simp)
@@ -717,7 +777,7 @@ theorem foldl_endBlockRecord_spec (rs : List URec) (s : L) (hi : RecInv s)
       show find? (endBlockRecord s r0).recs r.key = some r
       rw [oth1 r.key hne]; exact hl r (by simp [hr])
     obtain ⟨v2, i2, oth2, hh2, hg2, held2⟩ := ih (endBlockRecord s r0) i1 hl' hd'.2
-    refine ⟨fun a => by rw [v2 a, v1 a], i2, ?_, hh2.trans hh1, hg2.trans hg1, ?_⟩
+    refine ⟨⟨fun a ha => by rw [v2.1 a ha, v1.1 a ha], by rw [v2.2, v1.2]⟩, i2, ?_, hh2.trans hh1, hg2.trans hg1, ?_⟩
     · intro k hk
       rw [oth2 k (fun r hr => hk r (by simp [hr])), oth1 k (fun e => hk r0 (by simp) e.symm)]
     · intro r hr hheld
@@ -838,7 +898,8 @@ theorem pendingRecords_spec {s : L} (hi : RecInv s) :
 
 /-- x/delegation EndBlock as a whole -/
 theorem endBlock_spec {s : L} (hi : RecInv s) :
-    (∀ a, value (endBlock s) a = value s a) ∧ RecInv (endBlock s) ∧
+    ((∀ a, a ≠ nativeAID → value (endBlock s) a = value s a) ∧
+     (endBlock s).escrow - value (endBlock s) nativeAID = s.escrow - value s nativeAID) ∧ RecInv (endBlock s) ∧
     (endBlock s).holds = s.holds ∧ (endBlock s).height = s.height ∧
     (∀ r, Live s r → r.completeBlock ≠ s.height → Live (endBlock s) r) ∧
     (∀ r, Live s r → r.completeBlock = s.height → 0 < getD s.holds r.key 0 →
@@ -862,5 +923,100 @@ theorem endBlock_spec {s : L} (hi : RecInv s) :
       exact hne h2.2
   · intro r hl hdue hheld
     exact held r (hcomplete r hl hdue) hheld
+
+end ExoVerif.Ledger
+
+namespace ExoVerif.Ledger
+open ExoVerif ExoVerif.KV
+
+/-! ## the escrow account is only touched by native delegation and native completion -/
+
+theorem updStaker_escrow {s s' : L} {st : SID} {a : AID} {dT dW dP : Int}
+    (h : updStaker s st a dT dW dP = .ok s') : s'.escrow = s.escrow := by rw [updStaker_ok h]
+
+theorem updPool_escrow {s s' : L} {o : OID} {a : AID} {dA dP : Int} {dS dO : Dec}
+    (h : updPool s o a dA dP dS dO = .ok s') : s'.escrow = s.escrow := by
+  obtain ⟨_, _, _, _, hs⟩ := updPool_ok h; rw [hs]
+
+theorem updDeleg_escrow {s s' : L} {st : SID} {a : AID} {o : OID} {dS : Dec} {dW : Int} {z : Bool}
+    (h : updDeleg s st a o dS dW = .ok (s', z)) : s'.escrow = s.escrow := by
+  obtain ⟨_, _, _, hs⟩ := updDeleg_ok h; rw [hs]
+
+theorem removeShare_escrow {s s' : L} {isU : Bool} {o : OID} {st : SID} {a0 : AID} {share : Dec}
+    {removed : Int} (h : removeShare s isU o st a0 share = .ok (s', removed)) : s'.escrow = s.escrow := by
+  unfold removeShare at h
+  simp only [bind, Except.bind, pure, Except.pure, throw, throwThe, MonadExceptOf.throw] at h
+  split at h
+  · cases h
+  · split at h
+    · cases h
+    · rename_i p1 h1
+      obtain ⟨s1, rem⟩ := p1
+      simp only [] at h
+      have e1 : s1.escrow = s.escrow := by
+        unfold removeShareFromOperator at h1
+        simp only [bind, Except.bind, pure, Except.pure, throw, throwThe, MonadExceptOf.throw] at h1
+        split at h1
+        · cases h1
+        · split at h1
+          · cases h1
+          · split at h1
+            · cases h1
+            · split at h1
+              · cases h1
+              · split at h1
+                · cases h1
+                · rename_i sx hx
+                  injection h1 with h1; injection h1 with ha hb; subst ha
+                  exact updPool_escrow hx
+      split at h
+      · cases h
+      · rename_i s2 h2
+        have e2 : s2.escrow = s1.escrow := by
+          unfold pendStaker at h2
+          split at h2
+          · exact updStaker_escrow h2
+          · injection h2 with h2; rw [← h2]
+        split at h
+        · cases h
+        · rename_i p3 h3
+          obtain ⟨s3, z⟩ := p3
+          simp only [] at h
+          have e3 := updDeleg_escrow h3
+          split at h
+          · cases h
+          · rename_i s4 h4
+            injection h with h; injection h with ha hb; subst ha
+            have e4 : s4.escrow = s3.escrow := by
+              cases z
+              · simp only [Bool.false_eq_true, if_false] at h4
+                injection h4 with h4; rw [← h4]
+              · simp only [if_true] at h4
+                unfold deleteStaker at h4
+                split at h4
+                · cases h4
+                · injection h4 with h4; rw [← h4]
+            rw [e4, e3, e2, e1]
+
+theorem undelegate_escrow {s s' : L} {st : SID} {a0 : AID} {o : OID} {x : Int} {n : Nat} {hash : String}
+    (h : undelegate s st a0 o x n hash = .ok s') : s'.escrow = s.escrow := by
+  unfold undelegate at h
+  simp only [bind, Except.bind, throw, throwThe, MonadExceptOf.throw] at h
+  split at h
+  · cases h
+  · split at h
+    · cases h
+    · split at h
+      · cases h
+      · split at h
+        · cases h
+        · rename_i p1 h1
+          obtain ⟨s1, removed⟩ := p1
+          simp only [] at h
+          have e1 := removeShare_escrow h1
+          unfold setRecord at h
+          split at h
+          · cases h
+          · injection h with h; rw [← h]; exact e1
 
 end ExoVerif.Ledger
